@@ -21,3 +21,10 @@ CLAIMED['C17'] = (
 CLAIMED['C20'] = (
     'AST->SMT translation of schedule._delay (z3 Ints + calendar model, re-checked with z3 4.8.12 and cvc5) for every clock instant 1970-2100; CrossHair+z3 bounded histories of defer/periodics',
     'Kernel clauses are single unsat queries over all instants 1970-2100 and all accepted moments; translator validated against the real function on every run.', _BASE_NOTE, 'DESIGN.md section 5 C20')
+CLAIMED['C13'] = (_SCHED.replace('scheduler/farm', 'shelve lock protocol (comms.Worker)'), _SCHED_TXT, _BASE_NOTE, 'DESIGN.md section 5 C13')
+CLAIMED['C18'] = (
+    'CrossHair+z3 symbolic execution of chronicle.find/_load with every time of day a z3 integer (days from a pool), compared with a brute-force window filter',
+    'Confirmed over all paths for all seconds of the day of every entry and bound, for the day pool and entry count in the bounds.', _BASE_NOTE, 'DESIGN.md section 4 C18')
+CLAIMED['C19'] = (
+    'CrossHair+z3: symbolic endpoint string through security.is_sanctioned; solver-exhausted request-path and endpoint/method/certificate/hook matrices through the real fe._static and DynamicContent.render_*',
+    'All endpoint strings within the length bound; every request path within the segment pool/length bound; full registered-endpoint matrix.', _BASE_NOTE, 'DESIGN.md section 5 C19')
